@@ -1147,12 +1147,16 @@ pub enum End {
 pub fn fast_response(mut f: F<RecvResponse>, stream: &[u8]) -> Result<(End, RespObs, usize, Vec<u8>), String> {
     let mut consumed = 0usize;
     let mut obs = None;
-    for _ in 0..3 {
+    for _ in 0..8 {
         let (n, r) = f.try_response(&stream[consumed..]).map_err(|e| format!("try_response: {:?}", e))?;
         consumed += n;
         if let Some(r) = r {
             obs = Some(observe_response(&r));
-            break;
+            if f.can_proceed() {
+                break;
+            }
+            // an interim response was handed out: the caller keeps reading
+            continue;
         }
         if n == 0 {
             break;
